@@ -272,8 +272,17 @@ def T9(m, R):
         if subj != f.own_params()[0]:
             problems.append('matches %s, not format_spec' % subj)
         # group 2's colon is removed: format_match.group(2)[1:]
-        uses = [norm(n) for n in f.walk() if isinstance(n, ast.Subscript) and isinstance(n.value, ast.Call) and norm(n.value) == '%s.group(2)' % var]
-        if '%s.group(2)[1:]' % var not in uses:
+        # whatever holds group 2 (directly, through a local, or through `a, b = m.groups()`) is used without its first character
+        g2 = {'%s.group(2)' % var, '%s[2]' % var, '%s.groups()[1]' % var}
+        for n in f.walk():
+            if isinstance(n, ast.Assign) and len(n.targets) == 1:
+                t_, v_ = n.targets[0], n.value
+                if isinstance(t_, ast.Name) and norm(v_) in g2:
+                    g2.add(t_.id)
+                if isinstance(t_, ast.Tuple) and len(t_.elts) == 2 and norm(v_) == '%s.groups()' % var and isinstance(t_.elts[1], ast.Name):
+                    g2.add(t_.elts[1].id)
+        uses = [norm(n) for n in f.walk() if isinstance(n, ast.Subscript) and isinstance(n.slice, ast.Slice) and norm(n.value) in g2]
+        if not any(u.endswith('[1:]') for u in uses):
             problems.append('the ansi part is not group(2) without its leading colon (%s)' % uses)
         R.check(not problems, f, st, 'spec splits as (.?[-+]?[<>^]?[0-9]*)(:ansi)?', '; '.join(problems), construct=cons)
 
